@@ -188,6 +188,22 @@ Proof.
       rewrite Esyms. replace (Nat.ltb cap (length alpha)) with false by (symmetry; apply Nat.ltb_ge; exact Hcap). auto.
 Qed.
 
+(* the operations of the header are well formed *)
+Lemma encode_alphabet_ok alpha ops : Forall (fun x => x < 256) alpha -> encode_alphabet alpha = Some ops -> Forall aop_ok (map conv ops).
+Proof.
+  intros Hb He.
+  unfold encode_alphabet in He. destruct (Nat.ltb 256 (length alpha)); [discriminate|].
+  destruct (Nat.eqb (length alpha) 0); [inversion He; subst; cbn [map conv]; repeat constructor|].
+  destruct (Nat.eqb (length alpha) 256); [inversion He; subst; cbn [map conv]; repeat constructor|].
+  destruct (negb (forallb (fun a : N => a <? 256) alpha)); [discriminate|]. inversion He; subst. cbn [map conv].
+  destruct (masks32_ok alpha) as [Hmb Hml].
+  assert (Hlast : last alpha 0 < 256).
+  { destruct alpha as [|x u]; [cbn [last]; lia|]. rewrite Forall_forall in Hb. apply Hb.
+    destruct (@exists_last _ (x :: u) ltac:(discriminate)) as (l' & a & ->). rewrite last_last. apply in_or_app. right. left. reflexivity. }
+  assert (Hlm : last alpha 0 / 8 < 32) by (apply N.div_lt_upper_bound; [discriminate|lia]).
+  constructor; [exact I|constructor; [cbn [aop_ok wop_ok]; lia|constructor; [split; [exact Hmb|rewrite Hml; lia]|constructor]]].
+Qed.
+
 (* written anywhere in a stream (here: first, then any program), closed, read back with any buffer size and source schedule *)
 Theorem alphabet_stream_roundtrip wbuf rbuf sched alpha ops rest cap :
   StronglySorted N.lt alpha -> Forall (fun x => x < 256) alpha -> encode_alphabet alpha = Some ops -> (length alpha <= cap)%nat ->
@@ -197,18 +213,7 @@ Theorem alphabet_stream_roundtrip wbuf rbuf sched alpha ops rest cap :
     run_arops s' (arops_of rest) = avals_of rest.
 Proof.
   intros Hs Hb He Hcap Hw Hw8 Hr Hr8 Hrest.
-  (* the header's operations are well formed: from the round trip lemma on a state that does not matter; shown directly *)
-  assert (Hops : Forall aop_ok (map conv ops)).
-  { unfold encode_alphabet in He. destruct (Nat.ltb 256 (length alpha)); [discriminate|].
-    destruct (Nat.eqb (length alpha) 0); [inversion He; subst; cbn [map conv]; repeat constructor|].
-    destruct (Nat.eqb (length alpha) 256); [inversion He; subst; cbn [map conv]; repeat constructor|].
-    destruct (negb (forallb (fun a : N => a <? 256) alpha)); [discriminate|]. inversion He; subst. cbn [map conv].
-    destruct (masks32_ok alpha) as [Hmb Hml].
-    assert (Hlast : last alpha 0 < 256).
-    { destruct alpha as [|x u]; [cbn [last]; lia|]. rewrite Forall_forall in Hb. apply Hb.
-      destruct (@exists_last _ (x :: u) ltac:(discriminate)) as (l' & a & ->). rewrite last_last. apply in_or_app. right. left. reflexivity. }
-    assert (Hlm : last alpha 0 / 8 < 32) by (apply N.div_lt_upper_bound; [discriminate|lia]).
-    constructor; [exact I|constructor; [cbn [aop_ok wop_ok]; lia|constructor; [split; [exact Hmb|rewrite Hml; lia]|constructor]]]. }
+  pose proof (encode_alphabet_ok alpha ops Hb He) as Hops.
   assert (Hall : Forall aop_ok (map conv ops ++ rest)) by (apply Forall_app; split; assumption).
   destruct (array_image wbuf _ Hw Hw8 Hall) as (s1 & s2 & pad & V & L & E1 & E2 & EV & Hcl & Hpad & Hlen & Himg & _).
   exists s1, s2.
